@@ -4,12 +4,11 @@ import json, os, subprocess
 ROOT = os.path.dirname(os.path.dirname(os.path.abspath(__file__)))
 
 # id -> (technique, level text, level note, design ref)
-CLAIMED = {
- "C11": ("property-based testing (proptest, shrinking) + bounded exhaustive enumeration against an i64 reference evaluator",
-         "Generated search: ~300k random expression trees (depth<=5) x assignments and every tree of depth<=2 over a small leaf alphabet x an assignment grid, in release (wrapping) and overflow-checked builds; each clean-evaluating sub-expression is compared before/after simplify() and against range()/is_positive(). Held on everything explored; not a proof.",
-         "Trusted: the harness's i64 reference evaluator (documented eval semantics); Broadcast nodes only on assignments meeting their documented precondition; simplified tree evaluated with i32 wrapping semantics. Known findings (listed in known_findings.jsonl) are excluded by signature.",
-         "DESIGN.md §6 C11"),
-}
+import glob
+CLAIMED = {}
+for f in sorted(glob.glob(os.path.join(ROOT, "harness", "*", "manifest.json"))):
+    for k, v in json.load(open(f)).items():
+        CLAIMED[k] = (v["technique"], v["text"], v["note"], v.get("ref", "DESIGN.md §6 " + k))
 
 NOT_APPLICABLE = {
  "C20": "rten-convert is a Python program needing the onnx and flatbuffers packages, which are not installed, not in the wheelhouse and cannot be fetched; the converter cannot be executed, so no generated input can be pushed through it (DESIGN.md §6 C20).",
